@@ -1,4 +1,70 @@
 import OsloModel.Proto
+import OsloModel.Encode
+import OsloModel.Slug
+open Oslo Oslo.Proto Oslo.Encode Oslo.Slug
 
--- stub: replaced by the real driver of this property group
-def main : IO Unit := Oslo.Proto.serve (fun _ => "bad-request")
+/-
+Requests (fields TAB-separated; names/text hex of UTF-8, bytes hex, `-` empty, `N` is None):
+  dec  <vk> <val> <incoming|N> <errors> <stdin|N> <default>
+  enc  <vk> <val> <incoming|N> <encoding> <errors> <stdin|N> <default>
+  utf8 <vk> <val>
+  slug <vk> <val> <incoming|N> <errors> <stdin|N> <default>      (front end: asciiFront)
+  pipe <ascii text>                                              (lines 290-291 after the front end)
+vk: s (str) | b (bytes) | o (any other type, val ignored but must be `-`).
+Reply: str:<hex> | bytes:<hex> | err:<ExceptionClass> | bad-request
+-/
+
+def parseVal (vk val : String) : Option Val :=
+  match vk with
+  | "s" => (unhexChars val).map .str
+  | "b" => (unhex val).map .bytes
+  | "o" => if val = "-" then some .other else none
+  | _ => none
+
+def parsePolicy : String → Option Policy
+  | "strict" => some .strict | "ignore" => some .ignore | "replace" => some .replace
+  | _ => none
+
+def parseOptName (s : String) : Option (Option Name) :=
+  if s = "N" then some none else (unhexChars s).map some
+
+def showErr : Err → String
+  | .typeError => "err:TypeError"
+  | .unicodeDecodeError => "err:UnicodeDecodeError"
+  | .unicodeEncodeError => "err:UnicodeEncodeError"
+  | .lookupError => "err:LookupError"
+
+def showText : Except Err Text → String
+  | .ok t => "str:" ++ hexChars t
+  | .error e => showErr e
+
+def showBytes : Except Err Bytes → String
+  | .ok b => "bytes:" ++ hex b
+  | .error e => showErr e
+
+def handle : List String → String
+  | ["dec", vk, val, inc, pol, sin, dflt] =>
+    match parseVal vk val, parseOptName inc, parsePolicy pol, parseOptName sin, unhexChars dflt with
+    | some v, some inc, some p, some sin, some d => showText (safeDecode real ⟨sin, d⟩ v inc p)
+    | _, _, _, _, _ => "bad-request"
+  | ["enc", vk, val, inc, enc, pol, sin, dflt] =>
+    match parseVal vk val, parseOptName inc, unhexChars enc, parsePolicy pol, parseOptName sin,
+          unhexChars dflt with
+    | some v, some inc, some enc, some p, some sin, some d =>
+      showBytes (safeEncode real ⟨sin, d⟩ v inc enc p)
+    | _, _, _, _, _, _ => "bad-request"
+  | ["utf8", vk, val] =>
+    match parseVal vk val with
+    | some v => showBytes (toUtf8 real v)
+    | none => "bad-request"
+  | ["slug", vk, val, inc, pol, sin, dflt] =>
+    match parseVal vk val, parseOptName inc, parsePolicy pol, parseOptName sin, unhexChars dflt with
+    | some v, some inc, some p, some sin, some d => showText (toSlug real ⟨sin, d⟩ asciiFront v inc p)
+    | _, _, _, _, _ => "bad-request"
+  | ["pipe", val] =>
+    match unhexChars val with
+    | some t => if t.all (fun c => c.toNat < 128) then showText (.ok (slugPipe t)) else "bad-request"
+    | none => "bad-request"
+  | _ => "bad-request"
+
+def main : IO Unit := serve handle
